@@ -215,6 +215,16 @@ harnesses! {
     w8_pi_n3, unwind = 6, raw = 4, |r| check_writer_table::<3>(r, 7);
     w8_doctype_n3, unwind = 6, raw = 4, |r| check_writer_table::<3>(r, 8);
     w8_eof_n3, unwind = 6, raw = 4, |r| check_writer_table::<3>(r, 9);
+    w8_start_n6, unwind = 9, raw = 7, |r| check_writer_table::<6>(r, 0);
+    w8_end_n6, unwind = 9, raw = 7, |r| check_writer_table::<6>(r, 1);
+    w8_empty_n6, unwind = 9, raw = 7, |r| check_writer_table::<6>(r, 2);
+    w8_text_n6, unwind = 9, raw = 7, |r| check_writer_table::<6>(r, 3);
+    w8_comment_n6, unwind = 9, raw = 7, |r| check_writer_table::<6>(r, 4);
+    w8_cdata_n6, unwind = 9, raw = 7, |r| check_writer_table::<6>(r, 5);
+    w8_decl_n6, unwind = 9, raw = 7, |r| check_writer_table::<6>(r, 6);
+    w8_pi_n6, unwind = 9, raw = 7, |r| check_writer_table::<6>(r, 7);
+    w8_doctype_n6, unwind = 9, raw = 7, |r| check_writer_table::<6>(r, 8);
+    w8_eof_n6, unwind = 9, raw = 7, |r| check_writer_table::<6>(r, 9);
 
     // ---- C09: constructor kernels
     c9_cdata_split_n5, unwind = 8, raw = 6, |r| check_cdata_split::<5>(r);
